@@ -14,7 +14,7 @@ META = {
                   "scheduling is outside the model.",
     "technique": "Coq: refutation by explicit schedule + invariant-based classification of every blocked waiter; virtual-clock schedule replay of the real code",
     "gen": ["serve", "stream", "protocol"],
-    "shapes": ["serve.*", "stream.Stream.poll", "protocol.Connection.serve", "protocol.Connection._dispatch", "protocol.Connection._dispatch_response"],
+    "shapes": ["serve.*", "stream.Stream.poll", "protocol.Connection.__init__", "protocol.Connection._get_seq_id", "protocol.Connection.serve", "protocol.Connection._dispatch", "protocol.Connection._dispatch_response"],
     "models": ["serve"],
     "model_files": ["Serve"],
     "assumptions": ["threading.Condition semantics", "virtual time: the clock advances only when no thread is enabled"],
